@@ -55,11 +55,15 @@ def realize(case, rng):
                 kind = rng.choice(["imprint", "imprint", "legacy"])
                 data = ksi.fake_imprint(alg, rng.randbytes(8)) if kind == "imprint" else ksi.legacy_id(b"gt%d" % rng.randrange(99))
                 links.append(ksi.Link(rng.random() < 0.5, kind, data, corr))
+        if has("chainLevel", k):       # one link of this chain gets a level correction that takes the level out of 0..255 (up to the 64-bit wrap-around values)
+            j = rng.randrange(n)
+            links[j].corr = rng.choice([256, 255 - min(lvl, 200) + 250, 1 << 16, 1 << 32, (1 << 32) + 3, 1 << 63, (1 << 64) - 1, (1 << 64) - 2, (1 << 64) - 1 - rng.randrange(1, 6)])
         inp = flip(h) if has("chainInput", k) else h
         ct = t + 1 if any(has("chainTime", j) for j in range(2, k + 1)) else t
         s.chains.append(dict(time=ct, index=None, inp=inp, alg=alg, links=links))
         shapes.append(ksi.shape_index(links))
-        h, lvl = ksi.aggregate(links, inp, lvl, alg)
+        agg = ksi.aggregate(links, inp, lvl, alg)
+        h, lvl = agg if agg is not None else (ksi.fake_imprint(alg, b"unevaluable-%d" % k), min(lvl + n, 200))
     assert not pads, "unplaced padding forms"
     # chain indices: chain k carries the shapes of the chains above it, then its own
     stated = list(shapes)
